@@ -34,6 +34,8 @@ func main() {
 		famC06(g, o, *n, *thorough)
 	case "c20":
 		famC20(g, o, *n, *thorough)
+	case "c16":
+		famC16(g, o, *n, *thorough)
 	case "c04":
 		famC04(g, o, *n, *thorough)
 	case "c03":
